@@ -92,7 +92,7 @@ def run_text(arg):
             else:  # decoy, three flavours by style
                 flavour = (e["style"] - 1) % 3
                 if flavour == 0:      # a comment on the name line that merely contains the word later
-                    var = DECOY_VARIANTS[fam][(e["style"] - 1) % len(DECOY_VARIANTS[fam])]
+                    var = DECOY_VARIANTS[fam][(e["style"] - 1 + L) % len(DECOY_VARIANTS[fam])]  # the line rotates the variants
                     concrete.append(("decoy", L, "  " + var))
                     tl.append({"k": "decoy", "at": L, "style": e["style"]})
                 elif flavour == 1:    # the real marker, but on the line below the name's line
